@@ -20,7 +20,9 @@ Oracle (independent of the model), evaluated on the real nodes after every actio
   O3  a CREATE for an id present in circuits/relays/exit_sockets (or the created-cache) is refused: no entry changes,
       no CREATED is sent;
   O4  a destroy removes entries only if its signature verifies and the signer is the adjacent peer of that entry;
-  O5  after the history every surviving circuit still carries a round trip end to end.
+  O5  after the history every surviving circuit still carries a round trip end to end;
+  O6  a genuine cell handed over from a foreign source address is never delivered at an originator and never
+      enables an exit socket (origin / neighbour check of on_data and exit_data).
 """
 from __future__ import annotations
 
@@ -36,7 +38,7 @@ LEAN_TARGETS = ["Ipv8.C05.Props"]
 PROPS_FILE = "Ipv8/C05/Props.lean"
 DRIVER = "drv_c05"
 RULE = ("history = 4..6 real TunnelCommunity nodes + 1 outsider, 1..6 circuits of 1..3 hops over the shared pool, "
-        "40..70 actions drawn from {deliver any in-flight datagram, send data, outside reply at an exit, ping, open "
+        "40..70 actions drawn from {deliver any in-flight datagram, deliver a genuine cell from a foreign source address, send data, outside reply at an exit, ping, open "
         "another circuit, legitimate destroy, clock tick past the created-cache, forged cell/CREATE/CREATED/destroy "
         "with any id, sender and signature}; one case per action; distinct = (action kind, role of the addressed id "
         "at the target, outcome); non-trivial = the action addressed an id that is in use at the target or moved a "
@@ -493,6 +495,45 @@ class History:
         self.record(f"dlv {idx} {ch}".rstrip(), node, "deliver-" + h[1], True,
                     ("dlv", h[1], role, len(w.step_sends), h[5]))
         self.ctx.count(f"deliver_role:{role}")
+
+    def act_redirect(self):
+        """A genuine encrypted cell is taken off the wire and delivered from a different source address
+        (on-path attacker re-sending it from elsewhere): relays do not care, but an originator must only accept data
+        from its first hop and a not-yet-enabled exit socket only from its hop's address."""
+        w, rng = self.w, self.rng
+        cands = [k for k, p in enumerate(w.flight)
+                 if len(p.data) > 31 and p.data[22] == 0 and not p.data[27] and 1 <= w.addr_idx.get(p.dst, 0) <= w.n]
+        if not cands:
+            return
+        idx = rng.choice(cands)
+        p = w.flight.pop(idx)
+        node = w.addr_idx[p.dst]
+        src = self.pick_src(node)
+        if tuple(src) == tuple(p.src):
+            w.flight.insert(idx, p)
+            return
+        h = w.header(p)
+        role = self.role(node, h[2])
+        o = w.ov(node)
+        circ = o.circuits.get(h[2])
+        hop_addr = tuple(circ.hop.address) if circ is not None and (circ.hops or circ.unverified_hop) else None
+        ex = o.exit_sockets.get(h[2])
+        ex_state = (ex.enabled, ex.hop.address[0]) if ex is not None else None
+        w.begin()
+        w.inject(node, src, p.data)
+        self.refresh_bk()
+        if w.step_orig and hop_addr is not None and tuple(src) != hop_addr:
+            self.fail("TunnelCommunity.on_data:data-accepted-from-non-neighbour",
+                      f"node {node} delivered data on its circuit {h[2]} although the cell came from {src}, not from the "
+                      f"circuit's first hop {hop_addr}", {"node": node})
+        if w.step_exit and ex_state is not None and not ex_state[0] and src[0] != ex_state[1]:
+            self.fail("TunnelCommunity.exit_data:enabled-from-foreign-address",
+                      f"node {node} enabled exit socket {h[2]} for a cell from {src} (hop is at {ex_state[1]})",
+                      {"node": node})
+        ch = self.choices_for(node, h[2])
+        self.record(f"dlvs {idx} {w.aidx(src)} {ch}".rstrip(), node, "redirect", True,
+                    ("dlvs", role, len(w.step_sends), bool(w.step_orig), bool(w.step_exit)))
+        self.ctx.count(f"redirect_role:{role}")
 
     def ready_circuits(self):
         self.refresh_bk()
@@ -1000,6 +1041,8 @@ class History:
                     self.act_legit_destroy()
                 elif r < 0.72:
                     self.act_tick()
+                elif r < 0.76:
+                    self.act_redirect()
                 else:
                     self.act_forge()
             if not self.failed and self.stop_at is None and self.do_sweep:
